@@ -39,7 +39,7 @@ def slug_of(title):
     return re.sub(r"[^\w一-鿿\- ]", "", title.lower().replace(" ", "-"))
 
 
-def gen_document(c, nt, nh, nl, slugfunc=False, plain_links=False, titles=None):
+def gen_document(c, nt, nh, nl, slugfunc=False, plain_links=False, titles=None, names=None):
     """Returns (text, spec) with spec = dict(explicit={normname: (kind, title)}, slugs=[(slug, title)], links=[(line, target, has_text, text)])."""
     lines = []
     explicit = {}
@@ -48,7 +48,7 @@ def gen_document(c, nt, nh, nl, slugfunc=False, plain_links=False, titles=None):
     links = []
     items = []
     for _ in range(nt):
-        items.append(("target", c.pick(NAMES), c.choose(6)))
+        items.append(("target", c.pick(names or NAMES), c.choose(6)))
     for _ in range(nh):
         items.append(("heading", c.pick(titles or (["a", "Name", "Ab"] if slugfunc else TITLES)), 1 + c.choose(2)))
     # order: interleave by a chosen rotation
@@ -179,7 +179,7 @@ def overrides(slugfunc):
     return o
 
 
-def make_docs(eng, nt, nh, nl, slugfunc=False, plain_links=False, titles=None):
+def make_docs(eng, nt, nh, nl, slugfunc=False, plain_links=False, titles=None, names=None):
     setup()
     c = CR.Choice(eng)
     state = {}
@@ -187,7 +187,7 @@ def make_docs(eng, nt, nh, nl, slugfunc=False, plain_links=False, titles=None):
 
     def body():
         c.reset()
-        text, spec = gen_document(c, nt, nh, nl, slugfunc, plain_links, titles)
+        text, spec = gen_document(c, nt, nh, nl, slugfunc, plain_links, titles, names)
         spec["slugfunc"] = slugfunc
         state["text"], state["spec"] = text, spec
         try:
@@ -216,10 +216,12 @@ def families(tier, seed):
     for nt, nh, nl in ([(1, 1, 1), (0, 2, 1), (2, 1, 1), (1, 2, 1)] if q else [(1, 1, 1), (0, 2, 1), (1, 1, 2), (2, 2, 1), (0, 3, 1), (2, 1, 2)]):
         F.append(Family("docs/T%d-H%d-L%d" % (nt, nh, nl), make_docs, "%d explicit target(s) x 5 kinds x %d names, %d heading(s) x %d titles x 2 levels, %d link(s) x 10 destinations x 3 styles x 3 placements, all orders by rotation" % (
             nt, len(NAMES), nh, len(TITLES), nl), args=dict(nt=nt, nh=nh, nl=nl), nontrivial="resolved", max_forks=400000, required=((nt, nh, nl) in ((1, 1, 1), (0, 2, 1)))))
-    F.append(Family("docs/T2-H0-L1", make_docs, "2 explicit targets (5 kinds incl. titled admonition / captioned table) in both orders, 1 text-less link ([](#t) or <project:#t>) at top level", args=dict(nt=2, nh=0, nl=1, plain_links=True), nontrivial="resolved", max_forks=400000))
+    qn = ["a", "Name", "sec:intro"] if q else None  # (quick tier: 3 of the 5 names)
+    F.append(Family("docs/T2-H0-L1", make_docs, "2 explicit targets (5 kinds incl. titled admonition / captioned table, names %r) in both orders, 1 text-less link ([](#t) or <project:#t>) at top level" % (qn or NAMES,),
+                    args=dict(nt=2, nh=0, nl=1, plain_links=True, names=qn), nontrivial="resolved", max_forks=400000))
     F.append(Family("docs/duplicate-titles", make_docs, "3 headings with titles from ['a', 'a-1'] (up to three equal titles, collisions with suffixed forms), 1 text-less link to a / a-1 / a-2 / a-1-1 / a-1-2 / missing",
                     args=dict(nt=0, nh=3, nl=1, plain_links=True, titles=["a", "a-1"]), nontrivial="resolved", max_forks=400000))
-    F.append(Family("docs/custom-slug-func", make_docs, "1 target, 1 heading, 1 link with a custom case-preserving heading_slug_func (reverses the title)", args=dict(nt=1, nh=1, nl=1, slugfunc=True),
+    F.append(Family("docs/custom-slug-func", make_docs, "1 target, 1 heading, 1 link with a custom case-preserving heading_slug_func (reverses the title)", args=dict(nt=1, nh=1, nl=1, slugfunc=True, names=["a", "Name", "x-y"] if q else None),
                     nontrivial="resolved", max_forks=400000))
     return F
 
